@@ -19,12 +19,15 @@ class Conn(object):
         self.greeted = False
         self.stanzas = []          # decoded client stanzas
         self.raw = bytearray()     # every byte read from the socket
+        self.sent_raw = bytearray()  # every byte written to the socket
         self.seen = 0
         self.lock = threading.Lock()
 
     def send_stanza(self, tree):
         with self.lock:
-            self.sock.sendall(self.srv.encrypt(refcodec.encode_canonical(tree)))
+            b = self.srv.encrypt(refcodec.encode_canonical(tree))
+            self.sent_raw += b
+            self.sock.sendall(b)
 
 
 class LoopServer(threading.Thread):
@@ -91,6 +94,7 @@ class LoopServer(threading.Thread):
                     c.srv.feed(data)
                     out = c.srv.take_out()
                     if out:
+                        c.sent_raw += out
                         c.sock.sendall(out)
                 while c.seen < len(c.srv.received):
                     try:
